@@ -233,8 +233,10 @@ met because the decoder takes every field from `Factory.CreateField` (see `FitMo
 of the 119 regenerated message tables, whatever field numbers, value types, duplicates and sizes the stream made the
 decoder produce (C13); (3) and `filedef.Listener` fed with them — followed by whatever further calls (`File`, `Close`,
 `Reset`, more messages), for every channel-buffer size N ≥ 0 and every interleaving of the decoder's goroutine with the
-listener's worker — never deadlocks: while the decoder still has a call to finish, some thread can move (C14). That no
-infinite run exists (every step consumes the script or moves a slice one station forward) is not proved here. -/
+listener's worker — never deadlocks: while the decoder still has a call to finish, some thread can move (C14); (4) and cannot run
+forever: no infinite sequence of steps exists (`Listener.no_infinite_run`: the calls left, then the rank of the two program
+counters plus three times the queue length, decrease lexicographically with every step) — so every run ends, and
+(5) where it ends the decoder's goroutine has finished all its calls: `OnMesg` / `File` / `Close` returned. -/
 theorem C03_listener_total (o : Opts) (bytes : List Nat) (ops : List Op) :
     let msgs := (listened (run (Api.fresh o bytes) ops)).map Msg.toMessage
     (∀ m ∈ msgs, ∀ f ∈ m.fields, f.base ≠ none) ∧
@@ -242,7 +244,13 @@ theorem C03_listener_total (o : Opts) (bytes : List Nat) (ops : List Op) :
     (∀ (σ : Type) (proc : σ → Fit.Msg.Message → σ) (init : σ) (N : Nat) (calls : List (Fit.Listener.Cmd Fit.Msg.Message))
        (s : Fit.Listener.St Fit.Msg.Message σ),
        Fit.Listener.Reachable proc init N (msgs.map .onMesg ++ calls) s → Fit.Listener.isFin s.p = false →
-       ∃ s', Fit.Listener.Step proc init s s') := by
+       ∃ s', Fit.Listener.Step proc init s s') ∧
+    (∀ (σ : Type) (proc : σ → Fit.Msg.Message → σ) (init : σ) (f : Nat → Fit.Listener.St Fit.Msg.Message σ),
+       ¬ ∀ i, Fit.Listener.Step proc init (f i) (f (i + 1))) ∧
+    (∀ (σ : Type) (proc : σ → Fit.Msg.Message → σ) (init : σ) (N : Nat) (calls : List (Fit.Listener.Cmd Fit.Msg.Message))
+       (s : Fit.Listener.St Fit.Msg.Message σ),
+       Fit.Listener.Reachable proc init N (msgs.map .onMesg ++ calls) s → (∀ s', ¬ Fit.Listener.Step proc init s s') →
+       Fit.Listener.isFin s.p = true) := by
   intro msgs
   have h1 : ∀ m ∈ msgs, ∀ f ∈ m.fields, f.base ≠ none := by
     intro m hm f hf
@@ -250,7 +258,14 @@ theorem C03_listener_total (o : Opts) (bytes : List Nat) (ops : List Op) :
     obtain ⟨f0, _, rfl⟩ := List.mem_map.mp hf
     simp [DField.toField]
   exact ⟨h1, fun m hm T hT => Fit.C13.C13_no_panic T (Fit.C13.C13_tables_wf T hT) m (h1 m hm),
-    fun σ proc init N calls s hr hfin => Fit.C14.C14_listener_deadlock_free proc init hr hfin⟩
+    fun σ proc init N calls s hr hfin => Fit.C14.C14_listener_deadlock_free proc init hr hfin,
+    fun σ proc init f => Fit.Listener.no_infinite_run proc init f,
+    fun σ proc init N calls s hr hstuck => by
+      cases hfin : Fit.Listener.isFin s.p with
+      | true => rfl
+      | false =>
+        obtain ⟨s', hs'⟩ := Fit.C14.C14_listener_deadlock_free proc init hr hfin
+        exact absurd hs' (hstuck s')⟩
 
 /-- non-vacuity: the one-record file `P` decoded with a message listener hands out one message (a file_id with an unknown
 field of number 0 — the line's factory is empty) -/
